@@ -538,6 +538,9 @@ Qed.
 Lemma xattr_merge_nil_r old : xattr_merge old [] = old.
 Proof. reflexivity. Qed.
 
+Lemma if_same_x {A} (b : bool) (x : A) : (if b then x else x) = x.
+Proof. destruct b; reflexivity. Qed.
+
 Lemma stage_xattr e f P i n : Forall plain P -> file_st f P i n ->
   exists f' n', (if o_keep_xattr o then lset_xattrs f P (e_xattrs e) else (f, true)) = (f', true)
     /\ file_st f' P i n' /\ upd f f' i /\ i_content n' = i_content n /\ i_mode n' = i_mode n /\ i_mtime n' = i_mtime n
@@ -585,9 +588,12 @@ Proof.
     - apply nget_nset_same.
     - apply iget_iset_same. }
   destruct (stage_time e f2 (out ++ p) _ _ HP S2) as (f3 & n3 & E3 & S3 & U3 & C3 & M3 & X3 & T3). rewrite E3. cbn [andthen].
-  destruct (stage_perm e f3 (out ++ p) _ _ HP S3) as (n4 & S4 & U4 & C4 & T4 & X4 & M4).
-  destruct (stage_xattr e (apply_perm o e f3 (out ++ p)) (out ++ p) _ _ HP S4) as (f5 & n5 & E5 & S5 & U5 & C5 & M5 & T5 & X5).
-  rewrite E5. exists f5. split; [reflexivity|].
+  (* extended attributes, then owner + mode *)
+  destruct (stage_xattr e f3 (out ++ p) _ _ HP S3) as (f4 & n4 & E4 & S4 & U4 & C4 & M4 & T4 & X4).
+  rewrite E4. cbn [andthen].
+  destruct (stage_perm e f4 (out ++ p) _ _ HP S4) as (n5 & S5 & U5 & C5 & T5 & X5 & M5).
+  set (f5 := apply_perm o e f4 (out ++ p)) in *.
+  exists f5. split; [reflexivity|].
   pose proof (upd_trans _ _ _ _ (upd_trans _ _ _ _ U3 U4) U5) as (UN & UX & UI).
   split.
   - eapply (post_intro f f1 f5 p); try eassumption.
@@ -598,7 +604,7 @@ Proof.
   - destruct S5 as (_ & N5 & I5). exists (next f1), n5. split; [exact N5|]. split; [exact I5|].
     split; [rewrite C5, C4, C3; reflexivity|].
     unfold kept_perm, kept_time, kept_xattr. split; [|split].
-    + intros H. apply andb_true_iff in H. destruct H as [H1 H2]. rewrite M5, M4, H2. subst e. cbn [entry_of e_perm]. rewrite H1. reflexivity.
+    + intros H. apply andb_true_iff in H. destruct H as [H1 H2]. rewrite M5, H2. subst e. cbn [entry_of e_perm]. rewrite H1. reflexivity.
     + intros H. apply andb_true_iff in H. destruct H as [H1 H2]. rewrite T5, T4, T3, H2. subst e. cbn [entry_of e_mtime]. rewrite H1. reflexivity.
     + intros H. apply andb_true_iff in H. destruct H as [H1 H2]. rewrite X5, X4, X3, H2. subst e ino0. cbn [entry_of e_xattrs i_xattrs]. rewrite H1.
       apply xattr_merge_nil. exact Hx.
@@ -633,8 +639,8 @@ Proof.
   assert (EP : apply_perm o e f2 (out ++ p) = f2).
   { unfold apply_perm. destruct (o_keep_perm o); [|reflexivity]. destruct (e_perm e); [|reflexivity].
     rewrite guarded, L2. reflexivity. }
-  rewrite EP. change (e_xattrs e) with (@nil (bytes * bytes)). cbn [lset_xattrs].
-  exists f2. split; [destruct (o_keep_xattr o); reflexivity|]. split.
+  change (e_xattrs e) with (@nil (bytes * bytes)). cbn [lset_xattrs]. rewrite if_same_x. cbn [andthen]. rewrite EP.
+  exists f2. split; [reflexivity|]. split.
   - eapply (post_intro f f1 f2 p); try eassumption.
     + intros q Hq. cbn [names f2 with_names]. apply nget_nset_other. auto.
     + intros i _. reflexivity.
@@ -692,8 +698,8 @@ Proof.
   destruct Hd2 as [md2 Hd2].
   assert (L2 : is_link f2 (out ++ p) = false).
   { unfold is_link. rewrite lstat_lit by assumption. rewrite Hd2. reflexivity. }
-  change (e_xattrs e) with (@nil (bytes * bytes)). cbn [lset_xattrs].
-  exists (apply_perm o e f2 (out ++ p)). split; [destruct (o_keep_xattr o); reflexivity|].
+  change (e_xattrs e) with (@nil (bytes * bytes)). cbn [lset_xattrs]. rewrite if_same_x. cbn [andthen].
+  exists (apply_perm o e f2 (out ++ p)). split; [reflexivity|].
   assert (EP : (apply_perm o e f2 (out ++ p) = f2 /\ (o_keep_perm o && c_keep_perm c = false)) \/
                (apply_perm o e f2 (out ++ p) = with_names f2 (nset (names f2) (out ++ p) (DDir (m mod 4096))))).
   { unfold apply_perm. destruct (o_keep_perm o); [|left; split; reflexivity]. subst e. cbn [entry_of e_perm].
